@@ -2,6 +2,7 @@ package sim
 
 import (
 	"bytes"
+	"cosmossdk.io/collections"
 	"fmt"
 	"strings"
 
@@ -27,6 +28,7 @@ type holdings struct {
 	ubd    map[string]math.Int       // delegator -> unbonding balance
 	tips   map[string]math.LegacyDec // selector -> reward credit
 	sel    map[string]string         // selector -> reporter
+	refund map[string]math.Int       // "dispute id|payer" -> recorded dispute-fee payment still awaiting its refund
 }
 
 type privState struct {
@@ -48,7 +50,7 @@ type C19Monitor struct {
 }
 
 func NewC19Monitor(st *Stats) *C19Monitor { return &C19Monitor{st: st} }
-func (m *C19Monitor) Name() string         { return "c19" }
+func (m *C19Monitor) Name() string        { return "c19" }
 
 func takeHoldings(c *Chain, ctx sdk.Context) holdings {
 	h := holdings{bal: balances(c, ctx), shares: map[string]math.LegacyDec{}, staked: map[string]math.Int{}, ubd: map[string]math.Int{}, sel: map[string]string{}}
@@ -71,6 +73,11 @@ func takeHoldings(c *Chain, ctx sdk.Context) holdings {
 		return false
 	})
 	h.tips, _ = selectorTips(c, ctx)
+	h.refund = map[string]math.Int{}
+	_ = c.App.DisputeKeeper.DisputeFeePayer.Walk(ctx, nil, func(k collections.Pair[uint64, []byte], p disputetypes.PayerInfo) (bool, error) {
+		h.refund[fmt.Sprintf("%d|%s", k.K1(), sdk.AccAddress(k.K2()).String())] = p.Amount
+		return false, nil
+	})
 	_ = c.App.ReporterKeeper.Selectors.Walk(ctx, nil, func(k []byte, s reportertypes.Selection) (bool, error) {
 		h.sel[sdk.AccAddress(k).String()] = sdk.AccAddress(s.Reporter).String()
 		return false, nil
@@ -277,6 +284,31 @@ func (m *C19Monitor) AfterTx(c *Chain, ctx sdk.Context, tx sdk.Tx, ok bool) {
 	}
 	for a, r := range m.h.sel {
 		check(a, "selection", after.sel[a] != r)
+	}
+	// a recorded fee payment awaiting its refund is a credit of the payer: when a transaction the payer did not sign
+	// consumes it, the value must reach the payer (balance or stake), not the signer
+	for k, amt := range m.h.refund {
+		if _, still := after.refund[k]; still {
+			continue
+		}
+		payer := strings.SplitN(k, "|", 2)[1]
+		if signers[payer] {
+			continue
+		}
+		gotPayer := get(after.bal, payer).Add(get(after.staked, payer)).Sub(get(m.h.bal, payer).Add(get(m.h.staked, payer)))
+		signerGain := math.ZeroInt()
+		fee := math.ZeroInt()
+		if ft, ok := tx.(sdk.FeeTx); ok {
+			fee = ft.GetFee().AmountOf(Denom)
+		}
+		for sgn := range signers {
+			signerGain = signerGain.Add(get(after.bal, sgn).Sub(get(m.h.bal, sgn)))
+		}
+		signerGain = signerGain.Add(fee)
+		m.st.Bucket("c19|refund-consumed-by-non-payer|payer-received=%v|signer-gained=%v", gotPayer.IsPositive(), signerGain.IsPositive())
+		if !gotPayer.IsPositive() && signerGain.IsPositive() {
+			c.Violate("C19", "c19", "fee-refund-of-non-signer-paid-to-signer:"+name, map[string]interface{}{"record": k, "recorded_amount": amt.String(), "payer_received": gotPayer.String(), "signer_gained": signerGain.String()})
+		}
 	}
 	m.st.Bucket("c19|tx|%s|signers=%d|exceptions=%d", name, len(signers), minInt(len(allowed), 3))
 	m.h, m.p = after, priv
